@@ -269,8 +269,9 @@ func (x *extractor) session(fd *ast.FuncDecl) error {
 		s := x.src(st)
 		if as, ok := st.(*ast.AssignStmt); ok && len(as.Rhs) == 1 {
 			if s == "sendChClean = true" {
-				if len(x.init) != 6 {
-					return fmt.Errorf("sendChClean = true before the end of the initialiser")
+				// the last call of the initialiser must be the swap (which calls there are is decided by the Lean side: cfgOf)
+				if len(x.init) == 0 || !strings.HasPrefix(x.init[len(x.init)-1], "state.Swap(natConn)!") {
+					return fmt.Errorf("sendChClean = true is not directly after the initialiser's swap")
 				}
 				sawClean = true
 				i++
